@@ -146,7 +146,10 @@ class Bed12Leg(object):
                 if len(exons) > 1 and draw(st.booleans()):
                     utrs.append([draw(st.integers(exons[-1][0], exons[-1][1])), exons[-1][1]])
             order = draw(st.permutations(list(range(ne))))
+            cds_order = list(draw(st.permutations(list(range(len(cds))))))
+            utr_order = list(draw(st.permutations(list(range(len(utrs))))))
             return {
+                "cds_order": cds_order, "utr_order": utr_order,
                 "tstart": tstart, "tend": tend, "span": span, "exons": exons, "cds": cds, "utrs": utrs, "order": list(order),
                 "strand": draw(st.sampled_from(["+", "-", "."])), "score": draw(st.sampled_from([".", "0", "7.5"])),
                 "has_name": draw(st.booleans()), "name_field": draw(st.sampled_from(["ID", "Name", "ID"])),
@@ -190,9 +193,11 @@ class Bed12Leg(object):
         for k in case["order"]:
             a, b = case["exons"][k]
             lines.append("\t".join(["chr1", "src", "exon", str(a), str(b), ".", case["strand"], ".", "ID=e%d;Parent=tx" % k]))
-        for i, (a, b) in enumerate(case["cds"]):
+        for i in case.get("cds_order", range(len(case["cds"]))):  # file order need not be coordinate order
+            a, b = case["cds"][i]
             lines.append("\t".join(["chr1", "src", "CDS", str(a), str(b), ".", case["strand"], "0", "ID=c%d;Parent=tx" % i]))
-        for i, (a, b) in enumerate(case["utrs"]):
+        for i in case.get("utr_order", range(len(case["utrs"]))):
+            a, b = case["utrs"][i]
             lines.append("\t".join(["chr1", "src", "UTR", str(a), str(b), ".", case["strand"], ".", "ID=u%d;Parent=tx" % i]))
         db = gffutils.create_db("\n".join(lines) + "\n", ":memory:", from_string=True)
         arg = "tx" if case["arg"] == "id" else db["tx"]
